@@ -57,6 +57,10 @@ def gen_case(rng, max_sites):
     labels = [f'L{int(rng.integers(nl))}' for _ in range(ns)] if mode == 'dict' else [f'S{k}' for k in range(ns)]
     if mode == 'dict':
         labels[0], labels[-1] = 'L0', 'L1'
+        if rng.random() < 0.35:
+            # numbered labels where one name is a prefix of another (Li1 / Li10 / Li11)
+            ren = {'L0': 'Li1', 'L1': 'Li10', 'L2': 'Li11'}
+            labels = [ren[x] for x in labels]
     rmax = 0.45 * dmin
     if rmax < 0.3:
         return None
@@ -238,6 +242,9 @@ def check_auto_radius(out: Outcome, rng):
     ns = int(rng.integers(2, 6))
     grid = rng.permutation(20 ** 3)[:ns]
     sites = np.array([[(g // 400) / 20, ((g // 20) % 20) / 20, (g % 20) / 20] for g in grid])
+    if rng.random() < 0.15:
+        # the same point listed twice (once through a periodic image): separation exactly 0
+        sites[1] = sites[0] + rng.integers(-1, 2, size=3)
     traj = gem.make_traj(np.zeros((2, 1, 3)), lat, ['Li'])
     # every other time the site structure carries the cell of a reference crystal: separations are those of the simulation cell
     st = gem.make_sites(gem.reference_cell(rng, lat) if rng.random() < 0.5 else lat, sites)
